@@ -31,6 +31,15 @@ Families
   mgr       the registered manager's methods called directly (compute/persist with duplicated arguments, blockwise,
             map_blocks, reduction, scan, apply_gufunc, unify_chunks, rechunk, from_array, normalize_chunks, store,
             shuffle, array_api …).
+  grid      operation × chunk count × NaN placement: every operation of the child's GRID table (ffill / bfill with limits
+            relative to the chunk sizes, interpolate_na, cumulative ops, rolling / coarsen with windows wider than a chunk,
+            idxmax / argmax dict forms, where / fillna / clip / combine_first, diff / shift / roll / every pad mode, reindex /
+            sel with method, sortby, xr.dot, apply_ufunc with core dims, map_blocks, unify_chunks, chunk(dict / 'auto'),
+            to_numpy / values / load / compute / persist, first / last through groupby and resample, and the manager's scan /
+            reduction called directly with NON-commutative associative merges, sequential and Blelloch) along a dimension
+            cut into exactly 1, 2, 4 and 7 chunks -- every operation with every chunk count in every run -- with NaNs at
+            chunk starts / chunk ends / whole chunks / leading chunks of late blocks / dense / sparse / leading+trailing
+            runs, next to operands with permuted dims and their own cut of the same dimension.
 The manager's method list is read from the source (REPO/dask_array/_xarray.py); methods never entered during a run
 are reported in the notes.
 """
@@ -530,6 +539,304 @@ def mutate_main(case):
     return kind, "none", "none"
 
 
+# ------------------------------------------------------------------------------------ family: grid
+#
+# operation × chunk-count class of the dimension "t" (1, 2, 4, 7 chunks) × NaN placement relative to the chunk
+# boundaries × the operation's keyword arguments.  Stratified: EVERY operation of the child's GRID table is run with
+# EVERY chunk-count class in every run; NaN placements and keyword-argument variants rotate through shuffled cycles
+# (per operation, for the scan-backed fills per (operation, class)), so siblings are covered evenly rather than by luck.
+
+GRID_KS = [1, 2, 4, 7]
+NANPATS = ["chunk_start", "late_starts", "dense", "whole_chunk", "chunk_end", "lead_trail", "sparse", "none"]
+SCAN_PATS = NANPATS[:-1]
+# cases per chunk-count class (default 1)
+GRID_REPS = {"ffill": 4, "bfill": 4, "ffill_ds": 2, "bfill_ds": 2, "ffill_transposed": 2, "pad": 6, "rolling_red": 2, "reduce": 3,
+             "evaluate": 3, "reindex": 2, "sel_method": 2, "mgr_scan": 4, "mgr_reduction_first_last": 2}
+SCAN_OPS = {"ffill", "bfill", "ffill_ds", "bfill_ds", "ffill_transposed", "bfill_perm", "ffill_bfill", "ffill_of_sum", "ffill_of_concat",
+            "ffill_of_rechunk", "interpolate_na", "resample_up", "mgr_scan", "mgr_reduction_first_last", "groupby_first_last",
+            "resample_first_last"}
+# ("median" is refused by the registered and the stock manager alike: not rotated)
+PAD_MODES = ["constant", "edge", "reflect", "symmetric", "wrap", "linear_ramp", "maximum", "minimum", "mean", "reflect:odd", "symmetric:odd"]
+ROLL_REDS = ["mean", "sum", "max", "min", "std", "var", "median", "count", "prod"]
+COARSEN_REDS = ["mean", "sum", "max", "min", "median", "std"]
+REDUCE_REDS = ["sum", "mean", "std", "var", "min", "max", "prod", "count", "any", "all", "median"]
+EVALS = ["to_numpy", "values", "np_asarray", "load", "compute", "persist", "persist_ffill", "ds_compute", "ds_persist_scan", "to_pandas",
+         "scalar"]
+
+
+class Cycler:
+    """options handed out in shuffled cycles: every option once before any repeats"""
+
+    def __init__(self, rng):
+        self.rng, self.state = rng, {}
+
+    def __call__(self, name, options):
+        st = self.state.get(name)
+        if not st:
+            st = list(options)
+            self.rng.shuffle(st)
+            self.state[name] = st
+        return st.pop()
+
+
+def compose(rng, n, k, even_p=0.4):
+    """n split into k positive chunk sizes"""
+    if k == 1:
+        return [n]
+    if n % k == 0 and rng.random() < even_p:
+        return [n // k] * k
+    cuts = sorted(rng.sample(range(1, n), k - 1))
+    return [b - a for a, b in zip([0] + cuts, cuts + [n])]
+
+
+def grid_geom(rng, k):
+    lo, hi = {1: (4, 8), 2: (4, 10), 4: (8, 13), 7: (8, 15)}[k]
+    nt = rng.randint(lo, hi)
+    if k == 4 and rng.random() < 0.25:
+        nt = rng.choice([8, 12])
+    ny = rng.randint(2, 4)
+    g = {"nt": nt, "tchunks": compose(rng, nt, k), "ny": ny, "ychunks": rng.choice([ny, ny, 1, [1, ny - 1]]),
+         "bychunks": rng.choice([ny, 1]), "k": k}
+    kb = rng.choice([x for x in GRID_KS if x <= nt])
+    g["btchunks"] = g["tchunks"] if rng.random() < 0.35 else compose(rng, nt, kb)
+    if rng.random() < 0.3:
+        g["tgaps"] = [rng.randint(1, 3) for _ in range(nt)]
+    g["vals"] = "perm" if rng.random() < 0.6 else "small"
+    return g
+
+
+def _limit(cyc, key, g):
+    tch, nt = g["tchunks"], g["nt"]
+    kind = cyc(("limit",) + key, ["none", "none", "gt_chunk", "one", "two", "ge_len", "min_chunk", "gt_min_chunk"])
+    return {"none": None, "one": 1, "two": 2, "gt_chunk": max(tch) + 1, "ge_len": nt, "min_chunk": min(tch),
+            "gt_min_chunk": min(tch) + 1}[kind]
+
+
+def _window(rng, cyc, op, g):
+    tch = g["tchunks"]
+    kind = cyc(("window", op), ["two", "three", "gt_min_chunk", "gt_chunk"])
+    w = {"two": 2, "three": 3, "gt_min_chunk": min(tch) + 1, "gt_chunk": max(tch) + 1}[kind]
+    return max(2, min(w, g["nt"]))
+
+
+def grid_params(rng, cyc, op, g):
+    nt, tch = g["nt"], g["tchunks"]
+    tlab = [float(x) for x in _cum(g["tgaps"])] if g.get("tgaps") else list(range(nt))
+    p = {}
+    if op in ("ffill", "bfill", "ffill_ds", "bfill_ds", "ffill_transposed", "bfill_perm", "ffill_of_sum"):
+        p["limit"] = _limit(cyc, (op, g["k"]) if op in ("ffill", "bfill") else (op,), g)
+    elif op in ("ffill_of_where", "where_cond_perm", "where_other", "xr_where", "where_drop"):
+        p["thr"] = float(rng.randint(-3, 5))
+        if op == "where_other":
+            p["other"] = cyc("where_other", ["v", "scalar"])
+    elif op in ("bfill_of_shift", "shift", "shift_ds", "roll", "roll_ds"):
+        p["shift"] = cyc(("shift", op), [1, -1, max(tch) + 1, -(min(tch) + 1), nt - 1, 2])
+        if op == "shift" and rng.random() < 0.5:
+            p["fill_value"] = -5.0
+        if op in ("roll", "roll_ds"):
+            p["roll_coords"] = rng.random() < 0.4
+        if op == "bfill_of_shift":
+            p["shift"] = -abs(p["shift"]) if abs(p["shift"]) < nt else -1
+    elif op in ("ffill_of_rechunk", "chunk_dict", "chunk_ds"):
+        kind = cyc(("chunk", op), ["int", "tuple", "auto", "one", "single"])
+        p["chunk"] = {"int": rng.randint(2, max(2, nt // 2)), "tuple": compose(rng, nt, rng.choice([x for x in (2, 4, 7) if x <= nt])),
+                      "auto": "auto", "one": 1, "single": -1}[kind]
+    elif op == "interpolate_na":
+        p["use_coordinate"] = rng.random() < 0.5
+        kind = cyc("interp_limit", ["none", "limit", "none", "max_gap"])
+        if kind == "limit":
+            p["limit"] = rng.randint(1, 3)
+        elif kind == "max_gap":
+            p["max_gap"] = rng.randint(2, 4)
+    elif op == "mgr_scan":
+        p["merge"], p["method"] = cyc(("mgr_scan", g["k"]), [("last", "blelloch"), ("first", "blelloch"), ("last", "sequential"), ("first", "sequential")])
+        p["axis"] = cyc("mgr_scan_axis", [0, 1])
+    elif op == "mgr_reduction_first_last":
+        p["which"] = cyc(("mgr_red", g["k"]), ["first", "last"])
+        p["axis"] = cyc("mgr_red_axis", [0, 1])
+        p["combine"] = rng.random() < 0.5
+    elif op == "groupby_first_last":
+        ng = rng.randint(2, 3)
+        p["labels"] = [rng.randrange(ng) for _ in range(nt)]
+        if rng.random() < 0.4:
+            p["skipna"] = False
+    elif op == "resample_first_last":
+        p["freq"] = cyc("resample_freq", ["2D", "3D", "%dD" % (max(tch) + 1), "4D"])
+        p["how"] = cyc("resample_fl", ["first", "last", "first", "last", "mean", "max"])
+    elif op == "resample_up":
+        p["how"] = cyc("resample_how", ["ffill", "bfill", "nearest", "asfreq"])
+    elif op in ("cumsum", "cumprod"):
+        if rng.random() < 0.6:
+            p["skipna"] = cyc(("skipna", op), [True, False])
+    elif op == "cumulative":
+        p["red"] = cyc("cumulative_red", ["sum", "max", "mean", "min"])
+        p["min_periods"] = cyc("cumulative_mp", [1, 2])
+    elif op in ("rolling_red", "rolling_ds", "rolling_2d", "rolling_construct", "rolling_reduce"):
+        p["window"] = _window(rng, cyc, op, g)
+        if op in ("rolling_red", "rolling_ds"):
+            p["red"] = cyc(("roll_red", op), ROLL_REDS)
+            mp = cyc(("roll_mp", op), ["none", "one", "none", "window-1"])
+            if mp != "none":
+                p["min_periods"] = 1 if mp == "one" else max(1, p["window"] - 1)
+        if op != "rolling_2d" and rng.random() < 0.4:
+            p["center"] = True
+        if op == "rolling_construct":
+            p["stride"] = cyc("construct_stride", [1, 2, 1, 3])
+            if rng.random() < 0.4:
+                p["fill_value"] = -1.0
+    elif op in ("coarsen_red", "coarsen_ds", "coarsen_construct"):
+        p["window"] = cyc(("coarsen_w", op), [2, 3, max(2, min(tch) + 1), 2])
+        if op != "coarsen_construct":
+            p["red"] = cyc(("coarsen_red", op), COARSEN_REDS)
+            p["boundary"] = cyc(("coarsen_b", op), ["trim", "pad"])
+            p["side"] = cyc(("coarsen_s", op), ["left", "right"])
+    elif op in ("idxmax", "idxmin"):
+        kind = cyc(("idx", op), ["plain", "skipna_false", "fill", "plain"])
+        if kind == "skipna_false":
+            p["skipna"] = False
+        elif kind == "fill":
+            p["fill_value"] = -1.0
+    elif op in ("argmax_dim", "argmin_dict", "argmax_dict"):
+        if op != "argmax_dim":
+            p["dims"] = cyc(("argdims", op), [["t"], ["t", "y"], ["y"], ["y", "t"]])
+        if rng.random() < 0.3:
+            p["skipna"] = True
+    elif op == "clip":
+        kind = cyc("clip", ["both", "lo", "hi"])
+        if kind != "hi":
+            p["lo"] = float(rng.randint(-4, 0))
+        if kind != "lo":
+            p["hi"] = float(rng.randint(1, 6))
+    elif op == "combine_first_shifted":
+        p["cut"] = rng.randint(1, max(1, min(3, nt - 2)))
+    elif op == "diff":
+        p["n"] = cyc("diff_n", [1, 2, 1, 3])
+        p["label"] = cyc("diff_label", ["upper", "lower"])
+    elif op == "pad":
+        mode, _, rtype = cyc("pad_mode", PAD_MODES).partition(":")
+        wk = cyc("pad_width", ["small", "left_only", "right_only", "gt_chunk", "small", "gt_chunk_right", "small"])
+        lim = nt - 1 if mode in ("reflect", "symmetric", "wrap") else nt + 2      # one reflection only: the portable range
+        big = min(max(tch) + 1, lim)
+        l, r = {"small": (rng.randint(1, 2), rng.randint(1, 2)), "left_only": (rng.randint(1, min(3, lim)), 0),
+                "right_only": (0, rng.randint(1, min(3, lim))), "gt_chunk": (big, rng.randint(1, 2)),
+                "gt_chunk_right": (rng.randint(1, 2), big)}[wk]
+        p.update(mode=mode, width=[l, r], kw={}, src="a0" if mode in ("maximum", "minimum", "mean", "median", "linear_ramp") else cyc("pad_src", ["a", "a0"]))
+        if mode == "constant" and rng.random() < 0.7:
+            p["kw"]["constant_values"] = cyc("pad_cv", [-9.0, [-1.0, -2.0]])
+        if mode == "linear_ramp":
+            p["kw"]["end_values"] = cyc("pad_ev", [3.0, [-2.0, 5.0]])
+        if mode in ("maximum", "minimum", "mean", "median") and rng.random() < 0.6:
+            sl = cyc("pad_sl", ["two", "pair", "gt_chunk", "two", "pair", "gt_chunk", "gt_axis"])
+            p["kw"]["stat_length"] = {"two": 2, "pair": [1, 3], "gt_chunk": min(max(tch) + 1, nt), "gt_axis": nt + 1}[sl]
+        if rtype:
+            p["kw"]["reflect_type"] = rtype
+    elif op == "reindex":
+        m = cyc("reindex_method", [None, "nearest", "ffill", "bfill", None])
+        off = 0.0 if m is None else rng.choice([0.0, 0.25, -0.25])
+        lab = [tlab[i] + off for i in rng.sample(range(nt), rng.randint(2, min(nt, 6)))]
+        lab += [tlab[0] - 2.0, tlab[-1] + 2.0][:rng.randint(0, 2)]
+        p["labels"] = sorted(lab) if rng.random() < 0.5 else lab
+        if m:
+            p["method"] = m
+            if rng.random() < 0.4:
+                p["tolerance"] = 0.5
+        if rng.random() < 0.4:
+            p["fill_value"] = -5.0
+    elif op == "reindex_like":
+        p["keep"] = cyc("reindex_like", [[1, None, 2], [None, None, -1], [2, None, None], [None, -1, 3]])
+    elif op == "sel_method":
+        m = cyc("sel_method", ["nearest", "ffill", "bfill", None])
+        off = 0.0 if m is None else rng.choice([0.25, -0.25, 0.0])
+        idx = [rng.randrange(nt) for _ in range(rng.randint(1, 6))]
+        if m in ("ffill", None) or off >= 0:
+            pass
+        p["labels"] = [min(max(tlab[i] + off, tlab[0]), tlab[-1]) for i in idx]
+        if m:
+            p["method"] = m
+    elif op == "sel_slice":
+        i, j = sorted(rng.sample(range(nt), 2))
+        p["lo"], p["hi"] = tlab[i], tlab[j]
+    elif op == "isel_list":
+        p["idx"] = [rng.randrange(-nt, nt) for _ in range(rng.randint(1, nt + 2))]
+    elif op == "isel_vectorized":
+        n = rng.randint(1, 6)
+        p["idx"] = [rng.randrange(nt) for _ in range(n)]
+        p["idy"] = [rng.randrange(g["ny"]) for _ in range(n)]
+    elif op == "isel_negstep":
+        p["step"] = cyc("negstep", [1, 2, 3])
+    elif op == "head_tail_thin":
+        p["n"] = cyc("htt", [1, 2, 3, max(tch) + 1])
+    elif op == "evaluate":
+        p["how"] = cyc("evaluate", EVALS)
+    elif op == "reduce":
+        p["red"] = cyc("reduce", REDUCE_REDS)
+        p["src"] = cyc("reduce_src", ["a", "a", "a0"])
+        if p["red"] in ("sum", "mean", "std", "var", "min", "max", "prod", "median") and rng.random() < 0.5:
+            p["skipna"] = cyc("reduce_skipna", [True, False])
+        if p["red"] in ("std", "var") and rng.random() < 0.5:
+            p["ddof"] = 1
+        if p["red"] in ("sum", "prod") and p.get("skipna") is not False and rng.random() < 0.5:
+            p["min_count"] = rng.randint(1, max(tch) + 1)
+        if p["red"] in ("any", "all"):
+            p["thr"] = float(rng.randint(-4, 6))
+    elif op == "reduce_all_dims":
+        p["red"] = cyc("reduce_all", ["sum", "mean", "max", "min", "count", "std"])
+    elif op == "differentiate":
+        p["edge_order"] = cyc("edge_order", [1, 2])
+    return p
+
+
+def _cum(xs):
+    out, s = [], 0
+    for x in xs:
+        s += x
+        out.append(s)
+    return out
+
+
+def gen_grid_cases(rng, tier):
+    ops = _table_names("GRID")
+    cyc = Cycler(rng)
+    out = []
+    for _ in range(3 if tier == "thorough" else 1):
+        for op in ops:
+            for k in GRID_KS:
+                for _ in range(GRID_REPS.get(op, 1)):
+                    g = grid_geom(rng, k)
+                    case = dict(g, fam="grid", op=op, data_seed=rng.randrange(10**6))
+                    if op in SCAN_OPS:
+                        case["nanpat"] = cyc(("nan", op, k) if op in ("ffill", "bfill", "mgr_scan") else ("nan", op), SCAN_PATS)
+                    else:
+                        case["nanpat"] = cyc(("nan", op), NANPATS)
+                    case["p"] = grid_params(rng, cyc, op, g)
+                    out.append(case)
+    return out
+
+
+def grid_shrink(case):
+    """smaller / plainer variants of a grid case that keep the cut of "t" and the NaN placement class"""
+    out = []
+
+    def variant(**kw):
+        c = copy.deepcopy(case)
+        c.update(kw)
+        if c != case:
+            out.append(c)
+
+    variant(ny=1, ychunks=1, bychunks=1)
+    variant(ychunks=case["ny"], bychunks=case["ny"])
+    variant(btchunks=case["tchunks"])
+    if case.get("tgaps"):
+        c = copy.deepcopy(case)
+        c.pop("tgaps")
+        if not any(k in c["p"] for k in ("labels", "lo", "hi")):
+            out.append(c)
+    variant(vals="perm")
+    if case["p"].get("limit") is not None:
+        variant(p=dict(case["p"], limit=None))
+    return out
+
+
 def gen_cases(rng, tier):
     thorough = tier == "thorough"
     cases = []
@@ -546,6 +853,7 @@ def gen_cases(rng, tier):
             cases.append(dict(env_params(rng), fam="route", op=o))
         cases += gen_mgr(rng)
     cases += gen_mutate_cases(rng, tier)
+    cases += gen_grid_cases(rng, tier)
     return cases
 
 
@@ -562,6 +870,8 @@ def class_of(case):
         return ("xr", "mapblocks") + mapblocks_class(case)
     if case["fam"] == "mutate":
         return ("xr", "mutate", case["obj"]) + mutate_main(case) + (case["read"], len(case["steps"]) > 2)
+    if case["fam"] == "grid":
+        return ("xr", "grid", case["op"], "t-chunks=%d" % case["k"], case["nanpat"])
     nb = tuple(min(nblocks(case["chunks"][d], n), 3) for d, n in case["sizes"].items())
     return ("xr", case["fam"], key_of(case), nb, case["chunks"] == case.get("chunks_b"))
 
@@ -636,6 +946,17 @@ class Stream:
                 for sig, case, what in ex.map(lambda t: report(self.env, *t), todo):
                     ctx.fail(sig, case, what)
         meths = manager_methods()
+        # the grid family's own cost: CPU seconds inside the children, and the share of the slowest worker (≈ the
+        # wall seconds it adds when the workers run in parallel)
+        gsecs = {}
+        for mode, rs in (("registered", reg), ("stock", stock)):
+            per = [0.0] * self.workers
+            for i, (case, r) in enumerate(zip(self.cases, rs)):
+                if case["fam"] == "grid":
+                    per[i % self.workers] += r.get("secs", 0.0)
+            gsecs[mode] = {"cpu": round(sum(per), 1), "slowest_worker": round(max(per), 1)}
+        gsecs["cases"] = sum(c["fam"] == "grid" for c in self.cases)
+        ctx.notes["xr_grid_seconds"] = gsecs
         ctx.notes["xr_cases"] = hist
         ctx.notes["manager_methods_in_source"] = len(meths)
         ctx.notes["manager_methods_never_entered"] = sorted(m for m in meths if m not in entered)
@@ -683,7 +1004,14 @@ def excused(case, r, s):
 
 def signature(case, verdict):
     kind = "xr-raises" if verdict.startswith("raises") else "xr"
-    return f"C26:{kind}:{case['fam']}:{key_of(case)}"
+    sub = ""
+    if case["fam"] == "grid" and case["op"] == "pad":
+        # one class per pad mode; an explicit reflect_type and a stat_length longer than the axis are classes of their own
+        rt, sl = case["p"]["kw"].get("reflect_type"), case["p"]["kw"].get("stat_length")
+        sub = ":reflect_type-" + rt if rt else ":" + case["p"]["mode"]
+        if sl is not None and max(sl if isinstance(sl, list) else [sl]) > case["nt"]:
+            sub = ":stat_length-exceeds-axis"
+    return f"C26:{kind}:{case['fam']}:{key_of(case)}{sub}"
 
 
 def judge_single(env, case):
@@ -707,6 +1035,8 @@ def judge_single(env, case):
 def shrink_candidates(case):
     """smaller variants of a dsload / mapblocks case: one variable dropped (references kept valid), no selection"""
     out = []
+    if case["fam"] == "grid":
+        return grid_shrink(case)
     if case["fam"] == "mutate":
         steps = case["steps"]
         for i in range(len(steps) - 1, -1, -1):
@@ -761,7 +1091,26 @@ def report(env, case, verdict, minimise=False):
     if v is None:
         # not reproducible on its own: depends on what ran before it in the same interpreter -- report as such
         return sig + ":batch-only", {"xr_case": case, "note": "seen only after other cases in the same interpreter"}, verdict
-    if minimise:
+    if minimise and case["fam"] == "grid":
+        # one round: every single simplification in one fresh interpreter, then all that kept the failure together
+        cands = grid_shrink(case)
+        rs = run_child("registered", cands, env) if cands else []
+        good = [c for c, r in zip(cands, rs) if r["verdict"].split(" ")[0] == v.split(" ")[0]]
+        if good:
+            combo = copy.deepcopy(case)
+            for c in reversed(good):
+                for k2 in set(c) | set(case):
+                    if c.get(k2) != case.get(k2):
+                        if k2 in c:
+                            combo[k2] = copy.deepcopy(c[k2])
+                        else:
+                            combo.pop(k2, None)
+            for small in ([combo] if len(good) > 1 else []) + [good[0]]:
+                vv = judge_single(env, small)
+                if vv is not None and vv.split(" ")[0] == v.split(" ")[0]:
+                    case, v = small, vv
+                    break
+    elif minimise:
         small = case
         for _ in range(4):
             cands = shrink_candidates(small)
